@@ -221,8 +221,13 @@ package store
 //@ ensures [supply]   err == nil && (limit == 0 || len(result) < limit) ==> forall k NodeID :: this.reg[k] && eligibleHost(this.node[k], kind, clock() - ExpireInterval) ==> hasNode(result, k)
 //@ modifies clock, lastActiveHosts
 
+// RemoveNode is offered by the in-memory driver only (no caller in the repository); the contract says what "removes a node" means
 //@ interface store.PoolStore.RemoveNode(nodeID) (err)
-//@ modifies this.reg, this.node
+//@ ensures [never-fails] err == nil
+//@ ensures [gone]        !this.reg[nodeID]
+//@ ensures [others]      forall k NodeID :: k != nodeID ==> this.reg[k] == old(this.reg[k]) && this.node[k] == old(this.node[k])
+//@ ensures [others-tracked] forall k NodeID, j NodeID :: k != nodeID ==> this.tracked[k][j] == old(this.tracked[k][j]) && this.peerts[k][j] == old(this.peerts[k][j])
+//@ modifies this.reg, this.node, this.tracked, this.peerts
 
 //@ interface store.Store.Stats() (result, err)
 //@ ensures [ledger-total] err == nil ==> result != nil && bigval(result.TotalCredit) == this.total
